@@ -63,7 +63,7 @@ for p, tier in (("p8", "quick"), ("p3", "quick"), ("p1", "thorough"), ("p5", "th
          text="encode step == spec_push (threshold state>>(sb-P) >= p, low word flushed, head (s/p)<<P + cum + s%p)")
     kani(f"ans::u8_u16_{p}::conf_decode", ["C06"], tier=tier, fns=[DEC], timeout=1200,
          text="decode step == spec_pop (quantile = state mod 2^P, refill iff < 2^(sb-wb) and a word exists)")
-    kani(f"ans::u8_u16_{p}::encode_errors", ["C09"], tier=tier, fns=[ENC],
+    kani(f"ans::u8_u16_{p}::encode_errors", ["C09", "C01"], tier=tier, fns=[ENC],
          text="symbol outside support => Err(ImpossibleSymbol) and coder unchanged; k-th write refused => Err(Backend) and coder unchanged")
     kani(f"ans::u8_u16_{p}::decode_total", ["C10", "C20"], tier=tier, fns=[DEC],
          text="from ANY (bulk,state) (invariant or not), any entry incl. p == 2^P: decode is Ok, no overflow/panic, symbol from the model")
@@ -81,7 +81,7 @@ for w, tier in (("u8_u16", "quick"), ("u32_u64", "quick"), ("u8_u32", "quick"), 
          text="into_compressed == bulk ++ LE chunks of state without leading zero words; num_words/num_bits/is_empty/iter_compressed agree; from_compressed inverts it")
     kani(f"ans_io::{w}::import_any", ["C01"], tier=tier, fns=[ST + "from_compressed", ST + "read_initial_state"],
          text="from_compressed(d) refused iff d ends in a zero word; else inv holds and into_compressed returns d")
-    kani(f"ans_io::{w}::binary_roundtrip", ["C04", "C18", "C08", "C01"], tier=tier,
+    kani(f"ans_io::{w}::binary_roundtrip", ["C04", "C18", "C08", "C01", "C06"], tier=tier,
          fns=[ST + "from_binary", ST + "into_binary", ST + "get_binary", ST + "num_valid_bits", "stack.rs::CoderGuard<SEALED=true>::{new,drop}"],
          text="for ANY words d (incl. trailing zero words, empty): into_binary(from_binary(d)) == d; num_valid_bits == wb*|d|; get_binary shows d and restores the coder")
     kani(f"ans_io::{w}::binary_export_any", ["C04"], tier=tier, fns=[ST + "into_binary", ST + "from_binary"],
@@ -205,7 +205,7 @@ for p, tier in (("p5", "quick"), ("p8", "quick"), ("p3", "thorough")):
 kani("chain::route_remainders_u8_u16_p5", ["C13"], kind="bounded", bound="<= 4 data words, 2 symbols", timeout=1200,
      fns=[CH + "ChainCoder::from_binary", CH + "ChainCoder::into_remainders", CH + "ChainCoder::from_remainders", CH + "ChainCoder::into_binary", CH + "ChainCoderHeads::new"],
      text="from_binary -> decode 2 -> into_remainders -> from_remainders -> encode back -> into_binary == prefix ++ data")
-kani("chain::precision_change_u8_u16", ["C13"], fns=[CH + "ChainCoder::change_precision", CH + "ChainCoder::increase_precision_unchecked", CH + "ChainCoder::decrease_precision_unchecked"],
+kani("chain::precision_change_u8_u16", ["C13", "C10", "C20"], fns=[CH + "ChainCoder::change_precision", CH + "ChainCoder::increase_precision_unchecked", CH + "ChainCoder::decrease_precision_unchecked"],
      text="change_precision<5> then <3> from any P=3 state is the identity")
 
 # =====================================================================================
@@ -224,7 +224,7 @@ for h, fns, txt in [
     ("cursor_into_reversed_write", ["Cursor::into_reversed", "<Reverse<Cursor> as WriteWords>::write"], "write after in-place reversal lands at the same logical index; free space unchanged"),
     ("vec_backend", ["<Vec as WriteWords>::write", "<Vec as ReadWords<Stack>>::read", "<Vec as Seek>::seek", "<Vec as Pos>::pos"], "Vec is a LIFO; seek truncates; beyond end refused"),
 ]:
-    kani("backends::" + h, ["C17", "C20"] + (["C07"] if h in ("cursor_seek", "vec_backend") else []), fns=[B + f for f in fns], text=txt)
+    kani("backends::" + h, ["C17", "C20"] + (["C07"] if h in ("cursor_seek", "vec_backend") else []) + (["C09"] if h == "cursor_write" else []), fns=[B + f for f in fns], text=txt)
 kani("backends::smallvec_backend", ["C17"], kind="bounded", bound="SmallVec<[u8;2]> with <= 3 words", fns=[B + "SmallVec impls"])
 kani("backends::adapters", ["C17"], kind="bounded", bound="3-word iterator, 2 callback writes", fns=[B + "FallibleIteratorReadWords", B + "InfallibleCallbackWriteWords", B + "FallibleCallbackWriteWords"])
 kani("backends::cursor_buf_mut_then_read", ["C20"], fns=[B + "Cursor::buf_mut", B + "<Cursor as ReadWords<Stack>>::read"],
@@ -242,6 +242,7 @@ kani("bits::stack_import_any", ["C16", "C18"], fns=[S + "StackCoder::from_compre
      text="for any last word w != 0: content = bits of w below its highest set bit (zero word refused)")
 kani("bits::queue_roundtrip", ["C16", "C18"], fns=[S + "QueueEncoder::write_bit", S + "QueueEncoder::into_compressed", S + "QueueDecoder::read_bit", S + "QueueDecoder::maybe_exhausted"],
      text="export == LSB-first packing zero padded; decoder yields the bits in order, then padding zeros, then None")
+kani("bits::stack_import_then_push", ["C16", "C18"], fns=[S + "StackCoder::from_compressed", S + "StackCoder::write_bit", S + "StackCoder::read_bit"], text="bits pushed onto a re-imported stack pop back unchanged; imported bits untouched")
 kani("bits::stack_guard", ["C08", "C16"], fns=[S + "StackCoderGuard::new", S + "StackCoderGuard::drop"], text="guard view == export; after drop, write+export == uninspected twin")
 kani("bits::queue_guard", ["C08", "C16"], fns=[S + "QueueEncoderGuard::new", S + "QueueEncoderGuard::drop"], text="guard view == export; after drop, write+export == uninspected twin")
 kani("bits::exp_golomb_u8", ["C16"], timeout=1800, fns=["symbol/exp_golomb.rs::ExpGolomb::{encode_symbol_prefix,encode_symbol_suffix,decode_symbol}"],
@@ -279,6 +280,12 @@ kani("models::non_contiguous_p4", ["C03", "C05", "C19"], kind="bounded", bound="
 kani("models::non_contiguous_full_precision_p8", ["C03", "C10", "C20"], kind="bounded", bound="one 3-entry table at P == Probability::BITS (explicit and inferred last entry), every quantile",
      fns=[M + "categorical/non_contiguous.rs::NonContiguousCategoricalDecoderModel::{from_symbols_and_nonzero_fixed_point_probabilities,quantile_function}"],
      text="at full precision (closing cdf entry wraps to 0) every quantile, also of the last symbol, is answered in bounds with the right entry")
+kani("models::lookup_full_precision_p8", ["C05", "C10", "C20", "C03"], kind="bounded", bound="one 3-entry table at P == Probability::BITS, every quantile", timeout=900,
+     fns=[M + "categorical/lookup_contiguous.rs::ContiguousLookupDecoderModel::{from_nonzero_fixed_point_probabilities,quantile_function}", M + "categorical/lookup_contiguous.rs::From<&ContiguousCategoricalEntropyModel>"],
+     text="at full precision the lookup model, built directly or converted from the searched model, answers every quantile in bounds and exactly like the searched model")
+kani("models::lazy_table_length_p2", ["C19", "C03"], kind="bounded", bound="all-ones tables of 2..=5 entries at P = 2",
+     fns=[M + "categorical/lazy_contiguous.rs::LazyContiguousCategoricalEntropyModel::from_floating_point_probabilities_fast"],
+     text="more symbols than quanta => Err; whatever is accepted tiles [0,2^P) and inverts exactly")
 kani("models::fast_f32_n3_p8", ["C19", "C03", "C20"], kind="bounded", bound="3 f32 entries (all bit patterns)", timeout=7200, tier="thorough",
      fns=[M + "categorical.rs::fast_quantized_cdf", M + "categorical/contiguous.rs::ContiguousCategoricalEntropyModel::from_floating_point_probabilities_fast"],
      text="Ok => model contract (tiling, nonzero, quantile search in bounds, no unreachable_unchecked) for NaN/inf/negative/denormal inputs too")
@@ -390,7 +397,7 @@ verus_unit(
         "thm_seal_words_is_seal_seq": dict(own=["C11", "C02", "C06"], dep=[], text="layer B = layer A: seal_words on machine values is seal_seq of the math layer, to which thm_seal_contains applies (any suffix stays inside the interval, State = 2 Words)"),
     },
 )
-kani("models::quantizer_reject_i16_u8_p8", ["C09"], fns=[M + "quantize.rs::<LeakilyQuantizedDistribution as EncoderModel>::left_cumulative_and_probability"],
+kani("models::quantizer_reject_i16_u8_p8", ["C09", "C03"], fns=[M + "quantize.rs::<LeakilyQuantizedDistribution as EncoderModel>::left_cumulative_and_probability"],
      text="Some iff min <= symbol <= max for every i16 symbol and every support of <= 256 symbols (probability type u8)")
 
 # ---------------- Verus unit: range decoder step (queue.rs)
@@ -423,9 +430,11 @@ kani("huffman::f32_n3", ["C15"], kind="bounded", bound="3 symbols, f32 weights (
 # models::generic_decoder_* / generic_encoder_* (to_generic_decoder_model / to_generic_encoder_model on 2-symbol tables) exhaust
 # CBMC's memory (Vec::extend over an impl-Iterator chain; hashbrown): measured, not registered.  The conversions are
 # covered only through symbol_table (rows == encoder view), from which both conversions are built.
-kani("models::lazy_vs_eager_small_p8", ["C05", "C03", "C10"], kind="bounded", bound="3 entries from {0,0.5,1,3}", timeout=900,
+kani("models::lazy_vs_eager_small_p8", ["C05", "C03", "C10", "C09"], kind="bounded", bound="3 entries from {0,0.5,1,3}", timeout=900,
      fns=[M + "categorical/lazy_contiguous.rs::LazyContiguousCategoricalEntropyModel::{from_floating_point_probabilities_fast,left_cumulative_and_probability,quantile_function}"])
 for p, tier in (("p5", "quick"), ("p8", "quick"), ("p3", "thorough")):
+    kani(f"chain::u8_u16_{p}::exports", ["C13"], tier=tier, fns=[CH + "ChainCoder::into_compressed", CH + "ChainCoder::into_binary"],
+         text="from any whole head state: into_compressed == compressed ++ all head words; into_binary Ok iff marker on a word boundary, == compressed ++ words below the marker; remainders handed back")
     kani(f"chain::u8_u16_{p}::new_heads", ["C13", "C14", "C20", "C10"], tier=tier, fns=[CH + "ChainCoderHeads::new", CH + "ChainCoder::from_binary", CH + "ChainCoder::from_compressed"],
          text="fresh coder: remainders head takes the fewest words reaching 2^(sb-wb-P); compressed head empty; Err iff data cannot fill the head")
 kani("models::fast_f32_rejects_bad_entries", ["C19"], fns=[M + "categorical.rs::fast_quantized_cdf"],
